@@ -63,16 +63,19 @@ def k5_surplus(ch, s, stop, hidden, maxlevel, decl):
 
 
 # ------------------------------------------------------------------ DOT
-def check_dot(ctx, prop, exporter_kind, lib, nodes, idmap, names, par, ch, s, stop, hidden, maxlevel, custom, case, known):
+def check_dot(ctx, prop, exporter_kind, lib, nodes, idmap, names, par, ch, s, stop, hidden, maxlevel, custom, case, known, phase2=None):
+    """phase2 = (stop2, hidden2): after the first verified iteration the predicates' answers change (they read a
+    mutable set, as state-dependent user predicates do) and the same exporter object is iterated again."""
     from anytree.exporter import DotExporter, UniqueDotExporter
     import anytree.dotexport
 
     lab = lambda n: idmap[id(n)]  # noqa: E731
     kw = {}
-    if stop:
-        kw["stop"] = lambda n: lab(n) in stop
-    if hidden:
-        kw["filter_"] = lambda n: lab(n) not in hidden
+    cur = {"stop": stop, "hidden": hidden}
+    if stop or phase2:
+        kw["stop"] = lambda n: lab(n) in cur["stop"]
+    if hidden or phase2:
+        kw["filter_"] = lambda n: lab(n) not in cur["hidden"]
     if maxlevel is not None:
         kw["maxlevel"] = maxlevel
     indent = 4
@@ -112,15 +115,37 @@ def check_dot(ctx, prop, exporter_kind, lib, nodes, idmap, names, par, ch, s, st
     lines = list(ex)
     lines2 = list(ex)
     ind = " " * indent
-    decl = declared(ch, s, stop, hidden, maxlevel)
-    edges = expected_edges(ch, decl)
+    unique_default = exporter_kind == "unique" and namefn is None
+    phase = {"n": 1, "ids": None}
 
     def bad(what, expected, observed):
-        ctx.violation("%s/%s/%s" % (prop, exporter_kind, what), "dot-structure", cfg, expected=expected, observed=observed)
+        ctx.violation("%s/%s/%s%s" % (prop, exporter_kind, what, "/after-predicate-change" if phase["n"] == 2 else ""), "dot-structure",
+                      dict(cfg, phase2=[sorted(phase2[0]), sorted(phase2[1])] if phase2 else None), expected=expected, observed=observed)
         return False
 
     if lines2 != lines:
         return bad("re-iteration", lines[:30], lines2[:30])
+    if not _verify_dot(ctx, prop, lines, bad, ind, graph, gname, options, ch, s, stop, hidden, maxlevel, names, namefn, nattr, eattr, edgetype, exporter_kind, unique_default, known, cfg, phase):
+        return False
+    if phase2:
+        ids1 = phase["ids"]
+        phase["n"] = 2
+        cur["stop"], cur["hidden"] = phase2
+        ctx.count("%s.predicate_change" % prop)
+        lines3 = list(ex)
+        if not _verify_dot(ctx, prop, lines3, bad, ind, graph, gname, options, ch, s, phase2[0], phase2[1], maxlevel, names, namefn, nattr, eattr, edgetype, exporter_kind, unique_default, known, cfg, phase):
+            return False
+        if unique_default:
+            ids2 = phase["ids"]
+            moved = [x for x in ids1 if x in ids2 and ids1[x] != ids2[x]]
+            if moved or len(set(list(ids1.values()) + list(ids2.values()))) != len(set(ids1) | set(ids2)):
+                return bad("unique-id-unstable", ids1, ids2)
+    return True
+
+
+def _verify_dot(ctx, prop, lines, bad, ind, graph, gname, options, ch, s, stop, hidden, maxlevel, names, namefn, nattr, eattr, edgetype, exporter_kind, unique_default, known, cfg, phase):
+    decl = declared(ch, s, stop, hidden, maxlevel)
+    edges = expected_edges(ch, decl)
     if not lines or lines[0] != "%s %s {" % (graph, gname):
         return bad("header", "%s %s {" % (graph, gname), lines[:1])
     if lines[-1] != "}":
@@ -133,7 +158,6 @@ def check_dot(ctx, prop, exporter_kind, lib, nodes, idmap, names, par, ch, s, st
     edgelines = body[len(decl):]
     # ---- node statements: parse back
     ids = {}
-    unique_default = exporter_kind == "unique" and namefn is None
     for x, ln in zip(decl, nodelines):
         if not ln.startswith(ind + '"'):
             return bad("node-statement", "node statement for %d" % x, ln)
@@ -162,6 +186,7 @@ def check_dot(ctx, prop, exporter_kind, lib, nodes, idmap, names, par, ch, s, st
             return bad("node-attributes", wantrest, rest)
     if len(nodelines) < len(decl):
         return bad("missing-node-statements", decl, nodelines)
+    phase["ids"] = dict(ids)
     # ---- edge statements
     byid = {}
     for x, ident in ids.items():
@@ -227,15 +252,16 @@ def check_dot(ctx, prop, exporter_kind, lib, nodes, idmap, names, par, ch, s, st
 MID = re.compile(r"^(N\d+)(.*)$", re.S)
 
 
-def check_mermaid(ctx, prop, lib, nodes, idmap, names, par, ch, s, stop, hidden, maxlevel, custom, case, to_file_dir=None):
+def check_mermaid(ctx, prop, lib, nodes, idmap, names, par, ch, s, stop, hidden, maxlevel, custom, case, to_file_dir=None, phase2=None):
     from anytree.exporter import MermaidExporter
 
     lab = lambda n: idmap[id(n)]  # noqa: E731
     kw = {}
-    if stop:
-        kw["stop"] = lambda n: lab(n) in stop
-    if hidden:
-        kw["filter_"] = lambda n: lab(n) not in hidden
+    cur = {"stop": stop, "hidden": hidden}
+    if stop or phase2:
+        kw["stop"] = lambda n: lab(n) in cur["stop"]
+    if hidden or phase2:
+        kw["filter_"] = lambda n: lab(n) not in cur["hidden"]
     if maxlevel is not None:
         kw["maxlevel"] = maxlevel
     indent = 0
@@ -262,15 +288,46 @@ def check_mermaid(ctx, prop, lib, nodes, idmap, names, par, ch, s, stop, hidden,
     lines = list(ex)
     lines2 = list(ex)
     ind = " " * indent
-    decl = declared(ch, s, stop, hidden, maxlevel)
-    edges = expected_edges(ch, decl)
+    phase = {"n": 1, "ids": None}
 
     def bad(what, expected, observed):
-        ctx.violation("%s/mermaid/%s" % (prop, what), "mermaid-structure", cfg, expected=expected, observed=observed)
+        ctx.violation("%s/mermaid/%s%s" % (prop, what, "/after-predicate-change" if phase["n"] == 2 else ""), "mermaid-structure",
+                      dict(cfg, phase2=[sorted(phase2[0]), sorted(phase2[1])] if phase2 else None), expected=expected, observed=observed)
         return False
 
     if lines2 != lines:
         return bad("re-iteration", lines[:30], lines2[:30])
+    if not _verify_mermaid(ctx, prop, lines, bad, ind, graph, gname, options, ch, s, stop, hidden, maxlevel, names, namefn, nodefn, edgefn, phase):
+        return False
+    if phase2:
+        ids1 = phase["ids"]
+        phase["n"] = 2
+        cur["stop"], cur["hidden"] = phase2
+        ctx.count("%s.predicate_change" % prop)
+        if not _verify_mermaid(ctx, prop, list(ex), bad, ind, graph, gname, options, ch, s, phase2[0], phase2[1], maxlevel, names, namefn, nodefn, edgefn, phase):
+            return False
+        if namefn is None:
+            ids2 = phase["ids"]
+            moved = [x for x in ids1 if x in ids2 and ids1[x] != ids2[x]]
+            if moved or len(set(list(ids1.values()) + list(ids2.values()))) != len(set(ids1) | set(ids2)):
+                return bad("id-unstable", ids1, ids2)
+    if to_file_dir is not None:
+        ctx.count("%s.to_file" % prop)
+        path = os.path.join(to_file_dir, "m-%d.md" % os.getpid())
+        lines_now = list(ex)
+        ex.to_file(path)
+        with open(path, encoding="utf-8") as fh:
+            text = fh.read()
+        os.unlink(path)
+        want = "```mermaid\n" + "".join(ln + "\n" for ln in lines_now) + "```"
+        if text != want:
+            return bad("to_file", want[:400], text[:400])
+    return True
+
+
+def _verify_mermaid(ctx, prop, lines, bad, ind, graph, gname, options, ch, s, stop, hidden, maxlevel, names, namefn, nodefn, edgefn, phase):
+    decl = declared(ch, s, stop, hidden, maxlevel)
+    edges = expected_edges(ch, decl)
     if not lines or lines[0] != "%s %s" % (graph, gname):
         return bad("header", "%s %s" % (graph, gname), lines[:1])
     body = lines[1:]
@@ -310,16 +367,7 @@ def check_mermaid(ctx, prop, lib, nodes, idmap, names, par, ch, s, stop, hidden,
         what = "edge-missing" if missing and not extra else ("edge-surplus" if extra and not missing else "edge-set")
         return bad(what, exp_lines[:30], {"edges": got[:30], "missing": missing[:10], "surplus": extra[:10]})
     ctx.count("%s.edges_checked" % prop, len(edgelines))
-    if to_file_dir is not None:
-        ctx.count("%s.to_file" % prop)
-        path = os.path.join(to_file_dir, "m-%d.md" % os.getpid())
-        ex.to_file(path)
-        with open(path, encoding="utf-8") as fh:
-            text = fh.read()
-        os.unlink(path)
-        want = "```mermaid\n" + "".join(ln + "\n" for ln in lines) + "```"
-        if text != want:
-            return bad("to_file", want[:400], text[:400])
+    phase["ids"] = dict(ids)
     return True
 
 
@@ -358,9 +406,33 @@ def hostile_names(rng, n, collide):
     return [rng.choice(pool) for _ in range(n)]
 
 
-def build(par, names):
+_VALUE_CLS = []
+
+
+def value_node_class():
+    """Node subclass with value semantics: equal / hash-equal when the names agree."""
     from anytree import Node
 
+    if not _VALUE_CLS:
+        class ValueNode(Node):
+            def __eq__(self, other):
+                return type(other) is type(self) and other.name == self.name
+
+            def __ne__(self, other):
+                return not self.__eq__(other)
+
+            def __hash__(self):
+                return hash(self.name)
+
+        _VALUE_CLS.append(ValueNode)
+    return _VALUE_CLS[0]
+
+
+def build(par, names, value_semantics=False):
+    from anytree import Node
+
+    if value_semantics:
+        Node = value_node_class()  # noqa: N806
     nodes = [Node(names[i]) for i in range(len(par))]
     for i, p in enumerate(par):
         if p is not None:
